@@ -95,6 +95,15 @@ pcgstrf_pivotL(
        Also search for user-specified pivot, and diagonal element. */
     if ( *usepr == YES ) *pivrow = inv_perm_r[jcol];
     diagind = inv_perm_c[jcol];
+#ifdef SLU_MT_VERIF
+    {   /* candidates of this pivot search: {row subscripts, values, {nsupc,nsupr,usepr,old pivot row,diagind}} */
+	int_t vn[5]; const void *vrec[3];
+	vn[0] = nsupc; vn[1] = nsupr; vn[2] = (int_t) *usepr;
+	vn[3] = (*usepr == YES) ? *pivrow : EMPTY; vn[4] = diagind;
+	vrec[0] = lsub_ptr; vrec[1] = lu_col_ptr; vrec[2] = vn;
+	SLU_VERIF_EV(SLU_VEV_PIVOT_IN, pnum, jcol, nsupc, nsupr, vrec);
+    }
+#endif
     pivmax = 0.0;
     pivptr = nsupc;
     diag = EMPTY;
@@ -115,6 +124,7 @@ pcgstrf_pivotL(
 	perm_r[*pivrow] = jcol;
 	inv_perm_r[jcol] = *pivrow;
 	*usepr = NO;
+	SLU_VERIF_EV(SLU_VEV_PIVOT_OUT, pnum, jcol, *pivrow, -1, 0);
 	return (jcol+1);
     }
 
@@ -137,6 +147,7 @@ pcgstrf_pivotL(
 	*pivrow = lsub_ptr[pivptr];
     }
     
+    SLU_VERIF_EV(SLU_VEV_PIVOT_OUT, pnum, jcol, *pivrow, (int_t) *usepr, &thresh);
     /* Record pivot row */
     perm_r[*pivrow] = jcol;
     inv_perm_r[jcol] = *pivrow;
